@@ -59,9 +59,29 @@ fn only_standard(elems: &[Elem]) -> Vec<Elem> {
         .collect()
 }
 
+/// In an Implicit VR file the VR is not on the wire: the reader takes the dictionary's.  Elements
+/// whose generated VR is another one of the VRs the dictionary allows (e.g. OB for an "OB or OW"
+/// attribute) would legitimately be re-encoded differently, so such files do not carry them.
+fn only_dictionary_vr(elems: &[Elem]) -> Vec<Elem> {
+    elems
+        .iter()
+        .filter(|e| gen::dict().implicit_vr((e.g, e.e)) == e.vr)
+        .map(|e| {
+            let mut e = e.clone();
+            if let Val::Seq { items, .. } = &mut e.v {
+                for it in items.iter_mut() {
+                    it.elems = only_dictionary_vr(&it.elems);
+                }
+            }
+            e
+        })
+        .collect()
+}
+
 fn dataset(f: &FileSpec, k: usize) -> (Vec<Elem>, String) {
     let inst = format!("1.2.826.0.1.3680043.10.1462.{}", k + 1);
-    let mut v: Vec<Elem> = only_standard(&f.elems).into_iter().filter(|e| e.g >= 8 && !(e.g == 8 && (e.e == 0x05 || e.e == 0x16 || e.e == 0x18))).collect();
+    let base = if f.ts % 4 == 0 { only_dictionary_vr(&only_standard(&f.elems)) } else { only_standard(&f.elems) };
+    let mut v: Vec<Elem> = base.into_iter().filter(|e| e.g >= 8 && !(e.g == 8 && (e.e == 0x05 || e.e == 0x16 || e.e == 0x18))).collect();
     v.push(Elem { g: 8, e: 0x16, vr: "UI".into(), v: Val::Strs(vec![SOP_CLASSES[f.sop_class as usize % 4].into()]) });
     v.push(Elem { g: 8, e: 0x18, vr: "UI".into(), v: Val::Strs(vec![inst.clone()]) });
     v.sort_by_key(|e| (e.g, e.e));
